@@ -643,8 +643,16 @@ def boolean_rows(a, b, operation=np.intersect1d):
     --------
     shared: (p, d) array containing rows in both a and b
     """
-    a = np.asanyarray(a, dtype=np.int64)
-    b = np.asanyarray(b, dtype=np.int64)
+    a = np.asanyarray(a)
+    b = np.asanyarray(b)
+    # compare as 64 bit integers: signed, unless both arrays are
+    # unsigned where values above 2**63 - 1 would wrap to negative
+    if a.dtype.kind == "u" and b.dtype.kind == "u" and np.uint64 in (a.dtype, b.dtype):
+        dtype = np.uint64
+    else:
+        dtype = np.int64
+    a = np.asanyarray(a, dtype=dtype)
+    b = np.asanyarray(b, dtype=dtype)
 
     av = a.view([("", a.dtype)] * a.shape[1]).ravel()
     bv = b.view([("", b.dtype)] * b.shape[1]).ravel()
